@@ -20,6 +20,12 @@ claimed={
  "C16":dict(design="§7 C16",
    text="Bounded symbolic model checking of InterceptServer / WithInterceptor and of the interceptor hand-off in the in-process channel and the HTTP server: descriptor shape, streaming flags, nil-ness and behaviour (forward / short-circuit / fail / rewrite) of every interceptor, decoration depth and carrier are symbolic; the oracle is a recursive reference semantics of the chain (transport first, decorations outermost first, handler iff all forward; results and errors unchanged; FullMethod and flags correct; original description untouched; nil/nil returns the same pointer).",
    note="Trusted: engine SSA semantics, context model, protobuf structural stubs, HTTP hop harness (RoundTripper + recording ResponseWriter, io.Pipe from real SSA). Handlers follow the generated shape. Non-preemptive schedules only (the hand-off is sequential per call)."),
+ "C15":dict(design="§7 C15",
+   text="Bounded symbolic model checking of HandlerMap.RegisterService / QueryService / ForEach / GetServiceInfo: operation sequences, service names, handler typing (well-typed, wrong type, nil), descriptor shapes and streaming flags are symbolic; after every operation the complete observable state is compared with a reference association list; duplicate and ill-typed registrations must panic and leave the state unchanged; Go map iteration order is explored exhaustively.",
+   note="Trusted: engine SSA semantics, reflect modelled over go/types. The grpc.Server parity clause is checked against grpc's documented GetServiceInfo behaviour, not by running a grpc.Server. Sequences longer than the bound are outside the claim."),
+ "C13":dict(design="§7 C13",
+   text="Bounded symbolic model checking of ApplyPerRPCCreds, GetCallOptions, getPeer/peerFromRequest and both HTTP entry points up to the first request: scheme, host form, TLS state, unary/streaming, presence and behaviour of the credentials (metadata overlapping or not, empty, error, requires security) and caller metadata are symbolic choices; assertions: a secure-only credential on a non-https base URL fails with zero requests issued; otherwise the handler sees caller metadata followed by credential metadata per key; peer address as documented; AuthInfo present iff the connection uses TLS for unary and streaming alike.",
+   note="Trusted: engine SSA semantics, HTTP hop harness (the connection's TLS state appears on the response and on the server's request, as with net/http), context model, protobuf codec intrinsic. Metadata values are concrete here (value fidelity is C03's subject)."),
 }
 pending_reason="check not built yet (engine layers under construction); see DESIGN.md §9"
 na={}
